@@ -94,6 +94,10 @@ TABLE = {
             'after MESSAGE-INTEGRITY only FINGERPRINT is processed; under a non-empty key no path returns true without having passed the HMAC comparison (found and fixed); wire lengths are bounded by type or a dominating check and the loop advances; '
             'crctable equals the table generated from 0xEDB88320; the HMAC helper hashes long keys (found and fixed).',
             'That HMAC/CRC outputs equal the RFC values for all inputs, decode∘encode = id at value level and "no crash for arbitrary bytes" beyond the length rule are numerical/runtime claims: not decided.', 'DESIGN.md §2 C14'),
+    'C15': ('enumeration of all connectivity-state-changing atoms of the ICE datagram handler (field writes, calls) and abstract evaluation under "decode fails" / "no session password" (sink reachability), plus the flag-sensitive keyed-decode exploration shared with C14',
+            'Static, safety half: the 10 state-changing atoms of handleDatagram (learn candidate, create/nominate pair, triggered check, feed transaction, select active pair, connected(), binding response) are unreachable when the keyed decode fails and when no session password is set; '
+            'the password is chosen by message class symmetrically to the sender and is the decode key; a keyed decode cannot succeed without a verified MESSAGE-INTEGRITY; responses reach their transaction only after id and source-address match; activePair/connected only under pair->nominated.',
+            'Liveness (two honest agents connect, under loss), candidate/pair priority values and datagram pass-through are schedule/numeric claims: not decided.', 'DESIGN.md §2 C15'),
 }
 
 NOT_APPLICABLE_REASON = 'check not built yet in this session (see DESIGN.md); listed here until qxverif/rules/<id>.py exists'
